@@ -1,7 +1,7 @@
 (* PropC16.v — property theorems for C16 (offline providers honour the provider contract).
    All statements are about ProvModel.v, the model tied to MockProvider by harness/checks/c16.py. *)
 From Coq Require Import NArith List Bool.
-From CS Require Import Sx Str ProvModel ProvProofs ProvBounded ProvWf ProvMove ProvRename ProvSubtree ProvListdir.
+From CS Require Import Sx Str ProvModel ProvProofs ProvBounded ProvWf ProvMove ProvRename ProvSubtree ProvListdir ProvSpecified.
 Import ListNotations.
 
 (* ---- object ids: for EVERY call sequence and every flavour, heap cell r (one MockFSObject) has
@@ -268,6 +268,15 @@ Theorem C16_listdir_exact_wf : forall s k l, INV s -> listdir s k = Ok l ->
     NoDup (map i_oid l) /\ NoDup l.
 Proof. exact listdir_exact_wf. Qed.
 Print Assumptions C16_listdir_exact_wf.
+
+(* ---- the loop of MockProvider.rename runs over a Python set; where its result would depend on the
+   iteration order the model answers EUnspecified (ProvModel.move_specified).  From a state satisfying
+   INV a guarded call never meets that case (nor the "" path, nor a vanished heap cell): for guarded
+   sequences the model is a total description of the mock *)
+Theorem C16_guarded_never_unspecified : forall s o, INV s -> guard_op s o = true ->
+  snd (step s o) <> Err EUnspecified.
+Proof. exact step_specified. Qed.
+Print Assumptions C16_guarded_never_unspecified.
 
 (* ---- the unguarded statements are false of the faithful model; each part of the guard is necessary *)
 (* full strength, every call sequence: false — a folder can be renamed into itself, which orphans it *)
